@@ -113,6 +113,25 @@ def run(ctx):
         if any(after[kk] is not before[kk] for kk in before) or \
                 copy.deepcopy({kk: vv for kk, vv in after.items() if kk != "symbolic_model"}) != deep_before:
             ctx.fail("adapter-mutates-params", "transform/mahalanobis/score changed the estimator's parameters", case)
+        # one estimator re-used across parameter changes: what transform returns must follow the *current* parameters
+        try:
+            from formak import python as _fp
+            newk = ctx.rng.choice([x for x in (None, 0.5, 3.0) if x != k])
+            seq = [("innovation_filtering", newk), ("max_dt_sec", 0.05)]
+            if process:
+                seq.append(("process_noise", {sympy.Symbol(n): float(v) * 4.0 for n, v in process.items()}))
+            for pname, pval in seq:
+                with fk.quiet():
+                    ad.set_params(**{pname: pval})
+                    Tn = np.asarray(ad.transform(Xf), dtype=float)
+                    Hn = np.array(by_hand(ad, d, Xf.tolist()), dtype=float)
+                ctx.case(dict(case, after_set_params=pname), True); ctx.count("stream=set_params-then-transform")
+                if Tn.shape != Hn.shape or float(np.max(np.abs(Tn - Hn))) > 1e-9 * (1 + float(np.max(np.abs(Hn)))):
+                    ctx.fail("transform-stale-after-set_params", f"after set_params({pname}=...) on the same estimator, transform differs "
+                             "from running the filter exported with the current parameters", dict(case, after_set_params=pname))
+                    break
+        except Exception as e:
+            ctx.fail(f"adapter-raises:{fk.exc_kind(e)}", f"set_params/transform sequence raises {e!r}"[:300], case)
         if eh.is_rational(d):
             # exact rationals grow tenfold in size per row: the Lean model is run on the first rows only
             # (C16.transformRows_append: the transform of a prefix is the prefix of the transform)
